@@ -321,7 +321,7 @@ def run(pm, Expr, model, w, drv, seed, tags, dv="Y", ncombos=2, what=""):
 
         # weighted residuals: the documented formula over the (checked) gradient / prediction evaluators
         # (on the model's full dataset only now and then: one matrix inverse per individual, three times)
-        if "DV" in df.columns and not is_partial and (with_ds or rng.random() < 0.2):
+        if "DV" in df.columns and not is_partial and (with_ds or rng.random() < 0.1):
             full_str = {n: float(D.inits[n]) for n in D.inits}
             full_str.update(vals)
             try:
